@@ -32,7 +32,7 @@ def galois(S):
 def run(ctx):
     ir = ctx.ir('ScramblerLFSR', 'usb3.physical.scrambling')
     vs = gf2.Vars()
-    val = ir.drivers('self.value', exact=True)
+    val = q.merged_drivers(ir, 'self.value')          # written whole or in slices under one guard
     ctx.need(len(val) == 1 and not val[0].guard, 'ScramblerLFSR.value driver')
     regs = sorted(val[0].rhs.sigs())
     ctx.need(len(regs) == 1, 'LFSR state register')
@@ -66,10 +66,26 @@ def run(ctx):
     ctx.ob('C31.next-state', 'ScramblerLFSR.next_value', len(got_n) == 16 and not bad, adv[0].loc,
            'next state bits %s differ from the LFSR advanced by 32 steps; e.g. bit %s is %s, must be %s' % (
                bad[:8], bad[:1], vs.describe(got_n[bad[0]]) if bad and bad[0] < len(got_n) else '-', vs.describe(S[bad[0]]) if bad else '-'))
-    ctx.ob('C31.lfsr-control', 'ScramblerLFSR.clear', q.atoms(clr[0]) == {('self.clear', True)} and clr[0].rhs.val == si.init == 0xFFFF,
-           clr[0].loc, 'clear reloads the initial value (default 0xFFFF): clear=%s init=%s' % (clr[0].rhs.val, si.init))
-    ctx.ob('C31.lfsr-control', 'ScramblerLFSR.advance', q.atoms(adv[0]) == {('self.clear', False), ('self.advance', True)}, adv[0].loc,
-           'the state advances under advance unless cleared: %s' % sorted(q.atoms(adv[0])))
+    # who writes the state for each valuation of (clear, advance), last assignment wins: clear -> the constant, advance
+    # without clear -> the next-state network, neither -> nothing (If/Elif, separate Ifs or one If with a Mux alike)
+    from ..fsm import lit_atoms, assignments, holds
+    both = sorted(adv + clr, key=lambda a: a.order)
+    ats = sorted({x for a in both for l in a.guard for x in lit_atoms(l)})
+    okc = oka = set(ats) == {'self.clear', 'self.advance'}
+    if okc:
+        for asg in assignments(ats):
+            fire = [a for a in both if holds(a.guard, asg)]
+            last = fire[-1] if fire else None
+            if asg['self.clear']:
+                okc = okc and last is clr[0]
+            elif asg['self.advance']:
+                oka = oka and last is adv[0]
+            else:
+                oka = oka and last is None
+    ctx.ob('C31.lfsr-control', 'ScramblerLFSR.clear', okc and clr[0].rhs.val == si.init == 0xFFFF,
+           clr[0].loc, 'clear reloads the initial value (default 0xFFFF) and wins: clear=%s init=%s' % (clr[0].rhs.val, si.init))
+    ctx.ob('C31.lfsr-control', 'ScramblerLFSR.advance', oka, adv[0].loc,
+           'the state advances under advance unless cleared, and holds otherwise: %s' % sorted(q.atoms(adv[0])))
     irx = ctx.ir('ScramblerLFSR', 'usb3.physical.scrambling', initial_value=0x1234)
     c2 = [a for a in irx.drivers(X, exact=True) if a.rhs.op == 'const']
     ctx.ob('C31.lfsr-control', 'ScramblerLFSR.initial-value-param', len(c2) == 1 and c2[0].rhs.val == 0x1234 and irx.signals[X].init == 0x1234,
@@ -95,9 +111,20 @@ def run(ctx):
             xor = [x for x in ds if x.rhs.canon() == 'lfsr.value[%d:%d] ^ self.sink.payload[%d:%d]' % (lo, hi, lo, hi)]
             thru = [x for x in ds if x.rhs.canon() == 'self.sink.payload[%d:%d]' % (lo, hi)]
             ctrl = 'self.sink.ctrl[%d:%d]' % (i, i + 1)
-            ok = len(ds) == 2 and len(xor) == 1 and len(thru) == 1 and \
-                q.atoms(xor[0]) == {('self.enable', True), (ctrl, False)} and \
-                q.atoms(thru[0]) == {('self.enable & ~' + ctrl, False)}
+            # what drives this byte for each valuation of (enable, K flag) -- last assignment wins; an If/Else and a
+            # pass-through default with an override are the same thing
+            from ..fsm import lit_atoms, assignments, holds
+            bd = sorted(q.bits_drivers(s, 'self.source.payload', lo, hi), key=lambda t: t[0].order)
+            ats = sorted({x for a_, _ in bd for l in a_.guard for x in lit_atoms(l)} | {'self.enable', ctrl} |
+                         {x for _, ex in bd if ex is not None for n_ in ex.walk() if n_.op == 'mux' for x in q.bool_leaves(n_.args[0])})
+            ok = bool(bd) and ats == sorted({'self.enable', ctrl}) and all(ex is not None for _, ex in bd)
+            if ok:
+                for asg in assignments(ats):
+                    win = [ex for a_, ex in bd if holds(a_.guard, asg)]
+                    wantx = 'lfsr.value[%d:%d] ^ self.sink.payload[%d:%d]' % (lo, hi, lo, hi) if (asg['self.enable'] and not asg[ctrl]) \
+                        else 'self.sink.payload[%d:%d]' % (lo, hi)
+                    ok = ok and bool(win) and q.resolve_mux(win[-1], asg).canon() == wantx
+            ds = [a_ for a_, _ in bd] or ds
             ctx.ob('C31.symbol-xor', '%s.symbol%d' % (cls, i), ok, ds[0].loc if ds else None,
                    'symbol %d: data XOR keystream byte %d under enable & ~ctrl[%d], unchanged otherwise: %s' % (
                        i, i, i, [q.fmt(x) for x in ds]))
